@@ -23,6 +23,7 @@ LEVEL_TEXT = (
     "claim is sampled, not complete."
 )
 LEVEL_TEXT += ' Session 3: ploidies 21-320 (pooled samples): coefficient strips with k up to 320, every genotype of 81 small high-ploidy spaces, and sampled spaces biased to the edge of the 2^53 domain; a kernel that raises on a valid genotype / index is a violation.'
+LEVEL_TEXT += ' Session 4: posterior_as_array on spaces of 40 000 - 3 000 000 genotypes with every integer type the samplers store (int8, int16, int32, int64), sparse probabilities placed by a math.comb oracle.'
 LEVEL_NOTE = "Trusts math.comb, itertools and the reversed-tuple sort as the VCF G-order; ploidy bounded at 20 for sampled large spaces; (n,k)=(0,0) excluded (disputed corner documented by a pre-existing failing repository test)."
 RULE = (
     "exhaustive enumeration of all genotypes of every (ploidy<=8, n_alleles<=12) space with N<=60000 (quick: N<=8000) "
